@@ -647,8 +647,8 @@ def other_key(env, rng, h, kt=None):
 
 DEVIATIONS = ['none', 'forged-sig', 'tampered', 'wrong-signer', 'subst-key-same', 'subst-key-other', 'subst-key-junk',
               'subst-key-empty', 'missing', 'nack', 'neterr', 'no-siginfo', 'digest-sig', 'keydigest-locator',
-              'empty-locator', 'sigtype-mismatch', 'sigtype-unknown', 'sigtype-hmac', 'schema-denied', 'skip-level',
-              'attacker-cert', 'anchor-name-forged']
+              'empty-locator', 'sigtype-mismatch', 'sigtype-unknown', 'sigtype-hmac', 'hmac-with-pubkey', 'schema-denied', 'skip-level',
+              'attacker-cert', 'anchor-name-forged', 'anchor-near-locator']
 
 
 def deviate(env, rng, h, depth, link, dev):
@@ -741,6 +741,12 @@ def deviate(env, rng, h, depth, link, dev):
             si.signature_type = ty
         pid = rebuild(TweakSigner(base_signer, tweak_info=tw))
         leaf = pid if link == 0 else leaf
+    elif dev == 'hmac-with-pubkey':
+        # the attacker "signs" with HMAC, using the PUBLIC key bits of the named certificate as the secret:
+        # the MAC verifies; a validator that honoured HMAC here would accept a packet anybody can make
+        from ndn.security.signer import HmacSha256Signer
+        pid = rebuild(HmacSha256Signer(sname, skey[2]))
+        leaf = pid if link == 0 else leaf
     elif dev == 'schema-denied':
         # element [link] is signed by a perfectly valid certificate of the right level but of another branch
         # (issuer component of the name does not bind): cryptographically fine, denied by the schema
@@ -783,6 +789,18 @@ def deviate(env, rng, h, depth, link, dev):
         forged = w.add(env.cert(h.key_name('root'), 'self', 1, k2[2], env.signer(k2, h.names['root']))[1])
         w.serve(h.names['root'], forged)
         pid = rebuild(env.signer(k2, h.names['root']))
+        leaf = pid if link == 0 else leaf
+    elif dev == 'anchor-near-locator':
+        # really signed with the anchor's key, but the key locator names a sibling of the anchor certificate
+        # (other version / other issuer id / one more component): not the anchor, not retrievable => no chain
+        if link != depth:
+            return None
+        from ndn.encoding import Component
+        a = h.names['root']
+        near = rng.choice([a[:-1] + [Component.from_version(2)],
+                           a[:-2] + [Component.from_str('other'), a[-1]],
+                           a + [Component.from_str('x')]])
+        pid = rebuild(env.signer(skey, near))
         leaf = pid if link == 0 else leaf
     else:
         raise AssertionError(dev)
@@ -922,6 +940,8 @@ def gen_histories(ctx, env):
             lv = LEVELS[depth - 1]
             pk.append(w.add(env.data(h1.leaf_name(depth - 1), b'second', env.signer(h1.key[lv], h1.names[lv]))))
         pk.append(w.add(env.data('/lvs/notice/n2', b'third', env.signer(h2.key['root'], h2.names['root']))))
+        if len(chain) > 1 and rng.random() < 0.5:
+            pk[1] = chain[1]        # a certificate validated as a top-level packet (before/after it was cached)
         mode = rng.choice(['two-anchors', 'two-anchors', 'two-schemas', 'explicit-own', 'explicit-shared', 'three'])
         if mode == 'two-anchors':
             pre = [('lvs', 0, a1, None), ('lvs', 0, a2, None)]
